@@ -84,9 +84,10 @@ type propShape struct {
 	disabled bool
 }
 
+// ruleSpec is one combination of presence rules on a property; each list holds relative indices of other
+// properties (0 = next, 1 = next after that). A property may carry several kinds of rule at once.
 type ruleSpec struct {
-	kind    string // "", required_if, required_if_not, conflicts
-	targets []int  // relative indices of other properties (0 = next, 1 = next after that)
+	rif, rifn, conf []int
 }
 
 var form = []struct {
@@ -120,22 +121,21 @@ func buildObject(f int, shapes []propShape, rules []ruleSpec) (*spec.Spec, bool)
 		p := spec.Prop{Name: fm.props[i], Type: &spec.Spec{Kind: fm.kinds[i]}, Required: sh.required, Disabled: sh.disabled}
 		r := rules[sh.rule]
 		oth := others(n, i)
-		var names []string
-		for _, t := range r.targets {
-			if t < len(oth) {
-				names = append(names, fm.props[oth[t]])
+		ok := true
+		resolve := func(targets []int) []string {
+			var names []string
+			for _, t := range targets {
+				if t < len(oth) {
+					names = append(names, fm.props[oth[t]])
+				} else {
+					ok = false
+				}
 			}
+			return names
 		}
-		if r.kind != "" && len(names) != len(r.targets) {
+		p.RequiredIf, p.RequiredIfNot, p.Conflicts = resolve(r.rif), resolve(r.rifn), resolve(r.conf)
+		if !ok {
 			return nil, false
-		}
-		switch r.kind {
-		case "required_if":
-			p.RequiredIf = names
-		case "required_if_not":
-			p.RequiredIfNot = names
-		case "conflicts":
-			p.Conflicts = names
 		}
 		switch sh.def {
 		case 1:
@@ -280,16 +280,32 @@ func TestEnumObjects12(t *testing.T) {
 	}
 	rules1 := []ruleSpec{{}}
 	enumerate(t, 1, allShapes(1, []int{0, 1, 2}, []bool{false, true}), rules1, "objects with 1 property: all flag combinations x supplied subsets x 3 mappings")
-	rules2 := []ruleSpec{{}, {"required_if", []int{0}}, {"required_if_not", []int{0}}, {"conflicts", []int{0}}}
-	enumerate(t, 2, allShapes(4, []int{0, 1, 2}, []bool{false, true}), rules2, "objects with 2 properties: all flag combinations x supplied subsets x 3 mappings")
+	// every subset of the three rule kinds, each pointing at the other property
+	var rules2 []ruleSpec
+	for m := 0; m < 8; m++ {
+		var r ruleSpec
+		if m&1 != 0 {
+			r.rif = []int{0}
+		}
+		if m&2 != 0 {
+			r.rifn = []int{0}
+		}
+		if m&4 != 0 {
+			r.conf = []int{0}
+		}
+		rules2 = append(rules2, r)
+	}
+	enumerate(t, 2, allShapes(len(rules2), []int{0, 1, 2}, []bool{false, true}), rules2, "objects with 2 properties: all flag combinations x supplied subsets x 3 mappings")
 }
 
 func TestEnumObjects3(t *testing.T) {
 	if ev.Replaying() {
 		t.Skip()
 	}
-	rules3 := []ruleSpec{{}, {"required_if", []int{0}}, {"required_if", []int{0, 1}}, {"required_if_not", []int{0}}, {"required_if_not", []int{0, 1}}, {"conflicts", []int{1}}, {"conflicts", []int{0, 1}}}
-	enumerate(t, 3, allShapes(7, []int{0, 1}, []bool{false}), rules3, "objects with 3 properties: reduced flag grid (7 rule shapes, default none/valid, not disabled) x supplied subsets x 3 mappings")
+	rules3 := []ruleSpec{{}, {rif: []int{0}}, {rif: []int{0, 1}}, {rifn: []int{0}}, {rifn: []int{0, 1}}, {conf: []int{1}}, {conf: []int{0, 1}},
+		// several kinds of rule on one property
+		{rif: []int{0}, rifn: []int{1}}, {rif: []int{0}, rifn: []int{0}}, {rif: []int{1}, conf: []int{0}}, {rifn: []int{0}, conf: []int{1}}, {rif: []int{0}, rifn: []int{1}, conf: []int{0, 1}}}
+	enumerate(t, 3, allShapes(len(rules3), []int{0, 1}, []bool{false}), rules3, "objects with 3 properties: reduced flag grid (12 rule shapes incl. several rule kinds on one property, default none/valid, not disabled) x supplied subsets x 3 mappings")
 }
 
 // ---------------------------------------------------------------------------------------------------------------
